@@ -13,10 +13,13 @@ import json
 ID = "C13"
 LEVEL = "model_checking"
 RULE = (
-    "Complete products, no sampling. aseq1/aseq2/aseq2f: every annotated sequence of length n over "
-    "every listed sequence_start whose annotation is {1 feature, 1 location} / {1 feature, 2 locations} "
-    "/ {2 features, same or different key} with first<=last ranging over ALL positions of "
-    "[start-2, start+n+1] (locations may overhang the sequence), both strands, the defect palette; "
+    "Complete products, no sampling. aseq1/aseq2/aseq3/aseq2f/aseq3f: every annotated sequence of length n "
+    "over every listed sequence_start whose annotation is {1 feature, 1 location} / {1 feature, 2 "
+    "locations} / {1 feature, 3 locations} / {2 features, same or different key} / {3 features, two "
+    "sharing key and qualifiers} with first<=last ranging over ALL positions of "
+    "[start-2, start+n+1] (locations may overhang the sequence; 3-location/3-feature spaces: overhang 1), "
+    "both strands, the defect palette (second/third location of a feature: no defect; multi-feature "
+    "spaces: NONE and MISS_LEFT); "
     "crossed with every slice [a:b] (start<=a<=b<=end), [a:], [:b], [:] and starts below "
     "sequence_start (refuse). annot1/annot2: the same for bare Annotation objects on a position window "
     "crossing zero with every a,b of the window (+-1) or omitted. findex: every feature of 1..3 "
@@ -82,8 +85,10 @@ def bounds(tier):
     q = tier == "quick"
     return {
         "aseq1_max_len": 6 if q else 8,
-        "aseq2_max_len": 4 if q else 6,
-        "aseq2f_max_len": 3 if q else 4,
+        "aseq2_max_len": 4 if q else 7,
+        "aseq2f_max_len": 3 if q else 5,
+        "aseq3_max_len": 2 if q else 3,
+        "aseq3f_max_len": 1 if q else 2,
         "annot1_window": [-3, 4] if q else [-4, 5],
         "annot2_window": [-2, 3] if q else [-3, 3],
         "findex_max_len": 6 if q else 7,
@@ -94,7 +99,7 @@ def bounds(tier):
         "sequence_starts": "1, 2 and one of %r (seed)" % THIRD_START,
         "defect_palette": "NONE, MISS_LEFT, BEYOND_RIGHT and one of 8 listed others (seed); revcomp: all 6 "
                           "single flags + 3 combinations",
-        "overhang": 2,
+        "overhang": "2 positions on either side (aseq3/aseq3f: 1)",
     }
 
 
@@ -360,6 +365,12 @@ def diff_mode(E, O):
         for o in cand:
             if o[1] == e[1]:
                 return "location_truncated_left" if o[0] > e[0] else "location_extended_left"
+        # the cut location may coincide with (and be merged into) another expected location
+        for o in sorted(po[k]):
+            if o[2] == e[2] and o[0] == e[0] and o[1] < e[1]:
+                return "location_truncated_right"
+            if o[2] == e[2] and o[1] == e[1] and o[0] > e[0]:
+                return "location_truncated_left"
         for o in extra:
             if o[:2] == e[:2]:
                 return "strand"
@@ -1038,13 +1049,21 @@ def shards(tier, seed):
         for n in range(1, b["aseq1_max_len"] + 1):
             out.append({"kind": "aseq1", "n": n, "start": start})
         for n in range(1, b["aseq2_max_len"] + 1):
-            parts = 1 if n <= 2 else (4 if n <= 4 else (12 if n == 5 else 24))
+            parts = 1 if n <= 2 else (4 if n <= 4 else (12 if n == 5 else (24 if n == 6 else 48)))
             for part in range(parts):
                 out.append({"kind": "aseq2", "n": n, "start": start, "part": part, "parts": parts})
         for n in range(1, b["aseq2f_max_len"] + 1):
-            parts = 1 if n <= 1 else (2 if n == 2 else (6 if n == 3 else 16))
+            parts = 1 if n <= 1 else (2 if n == 2 else (6 if n == 3 else (16 if n == 4 else 32)))
             for part in range(parts):
                 out.append({"kind": "aseq2f", "n": n, "start": start, "part": part, "parts": parts})
+        for n in range(1, b["aseq3_max_len"] + 1):
+            parts = 1 if n <= 1 else (6 if n == 2 else 24)
+            for part in range(parts):
+                out.append({"kind": "aseq3", "n": n, "start": start, "part": part, "parts": parts})
+        for n in range(1, b["aseq3f_max_len"] + 1):
+            parts = 4 if n <= 1 else 24
+            for part in range(parts):
+                out.append({"kind": "aseq3f", "n": n, "start": start, "part": part, "parts": parts})
         for n in range(1, b["findex_max_len"] + 1):
             parts = 1 if n <= 4 else (2 if n == 5 else (4 if n == 6 else 12))
             for part in range(parts):
@@ -1064,7 +1083,7 @@ def shards(tier, seed):
     # cheap single-location shards first (they finish first and supply the minimal witnesses), then the
     # heavy products, widest first
     light = {"aseq1": 0, "findex": 1, "revcomp1": 2, "container": 3, "values": 3, "annot1": 3}
-    heavy = {"aseq2": 0, "aseq2f": 1, "annot2": 2, "revcomp2": 3}
+    heavy = {"aseq2": 0, "aseq2f": 1, "aseq3": 1, "aseq3f": 1, "annot2": 2, "revcomp2": 3}
     out.sort(key=lambda s: (0, s.get("n", 0), light[s["kind"]]) if s["kind"] in light and s.get("n", 0) <= 4
              else (1, heavy.get(s["kind"], 4), -s.get("n", 0)))
     return out
@@ -1074,7 +1093,41 @@ def run_shard(shard, ctx):
     p = pal(ctx.seed)
     b = bounds(ctx.tier)
     kind = shard["kind"]
-    if kind in ("aseq1", "aseq2", "aseq2f"):
+    if kind in ("aseq3", "aseq3f"):
+        # overhang 1: positions [start-1, start+n]
+        n, start = shard["n"], shard["start"]
+        seq = seq_for(p["letters"], n)
+        slices = aseq_slices(n, start)
+        lo, hi = start - 1, start + n
+        plain = locs_over(lo, hi, [0])
+        i = 0
+        feats = None
+        if kind == "aseq3":
+            full = locs_over(lo, hi, p["defects"], (start, start + n - 1))
+            for l1 in full:
+                for l2, l3 in itertools.combinations(plain, 2):
+                    if l1 in (l2, l3) or (l1[3] == 0 and not tuple(l1) < tuple(l2)):
+                        continue  # unordered triple, each once
+                    i += 1
+                    if i % shard["parts"] != shard["part"]:
+                        continue
+                    feats = [["a", [l1, l2, l3]]]
+                    run_aseq_one(ctx, seq, start, feats, slices)
+        else:
+            red = locs_over(lo, hi, [0, ML], (start, start + n - 1))
+            for l1 in red:
+                for l2 in red:
+                    for l3 in red:
+                        if not tuple(l1) < tuple(l3):
+                            continue  # the two "a" features are an unordered pair
+                        i += 1
+                        if i % shard["parts"] != shard["part"]:
+                            continue
+                        feats = [["a", [l1]], ["b", [l2]], ["a", [l3]]]
+                        run_aseq_one(ctx, seq, start, feats, slices)
+        if feats is not None:
+            ctx.sample({"kind": "aseq_slice", "seq": seq, "start": start, "feats": feats, "slices": len(slices)})
+    elif kind in ("aseq1", "aseq2", "aseq2f"):
         n, start = shard["n"], shard["start"]
         seq = seq_for(p["letters"], n)
         slices = aseq_slices(n, start)
@@ -1122,7 +1175,7 @@ def run_shard(shard, ctx):
             if i % shard["parts"] != shard["part"]:
                 continue
             run_annot_one(ctx, [["a", pr]], sl)
-            if i % 5 == 0:
+            if pr[0][3] == 0:
                 run_annot_one(ctx, [["a", [pr[0]]], ["b", [pr[1]]]], sl)
                 run_annot_one(ctx, [["a", [pr[0]]], ["a", [pr[1]]]], sl)
         ctx.sample({"kind": "annot_slice", "feats": [["a", pr]], "slices": len(sl)})
@@ -1218,11 +1271,9 @@ def run_revcomp(shard, ctx, p, b):
 def run_container(ctx, p):
     locs = locs_over(0, 2, [0, ML])
     feats1 = [["a", [l]] for l in locs] + [["b", [l]] for l in locs[:6]]
-    feats1 += [["a", [locs[0], locs[5]]], ["a", [locs[5], locs[0], locs[7]]]]
-    # every pair of annotations with <= 2 features from the list ... quadratic in a 33-element list of
-    # features: annotations of size 0, 1 and a reduced set of size-2 annotations
-    annots = [[]] + [[f] for f in feats1] + [[feats1[i], feats1[j]] for i in range(0, len(feats1), 3)
-                                              for j in range(i + 1, len(feats1), 4)]
+    feats1 = [["a", [locs[0], locs[5]]], ["a", [locs[5], locs[0], locs[7]]]] + feats1
+    # annotations: empty, every single feature of the list, every pair of its first 8 features
+    annots = [[]] + [[f] for f in feats1] + [[a, b] for a, b in itertools.combinations(feats1[:8], 2)]
     for fa in annots:
         for fb in annots:
             check_container(ctx, fa, fb)
